@@ -191,12 +191,58 @@ def eval_rope(m, r):
     return out
 
 
+_SEQ_CACHE = {}
+
+
+def mentions_seq(e):
+    """does the term contain a sub-term of sequence sort?"""
+    if not is_sym(e):
+        return False
+    todo = [e]
+    seen = set()
+    while todo:
+        x = todo.pop()
+        i = x.get_id()
+        if i in seen:
+            continue
+        seen.add(i)
+        hit = _SEQ_CACHE.get(i)
+        if hit is True:
+            return True
+        if hit is False:
+            continue
+        try:
+            if x.sort().kind() == z3.Z3_SEQ_SORT:
+                _SEQ_CACHE[e.get_id()] = True
+                return True
+        except Exception:
+            pass
+        todo.extend(x.children())
+    _SEQ_CACHE[e.get_id()] = False
+    return False
+
+
 def check_valid(ctx, formula, timeout_ms, want_model_vars=None, uf_apps=None):
     """is `pc & facts => formula` valid?"""
     formula = L._b(formula) if not isinstance(formula, bool) else formula
     t0 = time.time()
     if formula is True:
         return dict(verdict=PROVED, backend="fold", time=0.0)
+    if formula is not False and not mentions_seq(formula) and any(mentions_seq(f) for f in ctx.sink.facts + ctx.pc):
+        # a goal without sequence terms is first tried with the sequence-free hypotheses only (dropping hypotheses is
+        # sound for a validity proof; it keeps the sequence solver out of pure arithmetic / bit-vector goals)
+        s0 = z3.Solver()
+        s0.set("timeout", timeout_ms)
+        s0.set("random_seed", 7)
+        for f in ctx.sink.facts:
+            if not mentions_seq(f):
+                s0.add(f)
+        for f in ctx.pc:
+            if not mentions_seq(f):
+                s0.add(f)
+        s0.add(z3.Not(formula))
+        if s0.check() == z3.unsat:
+            return dict(verdict=PROVED, backend="z3", time=time.time() - t0)
     s = z3.Solver()
     s.set("timeout", timeout_ms)
     s.set("random_seed", 7)
